@@ -45,7 +45,7 @@ PPC = UI + 'PythonPathContext'
 
 
 def run(ctx):
-    for fn in (r1_candidate_order, r2_search_order, r3_split_walk, r4_name_derivation, r5_normalisation, r6_import_by_path, r7_no_memoised_filesystem_answers, r8_syspath_restored):
+    for fn in (r1_candidate_order, r2_search_order, r3_split_walk, r4_name_derivation, r5_normalisation, r6_import_by_path, r7_no_memoised_filesystem_answers, r8_syspath_restored, r1b_every_candidate_is_tried, r9_paths_are_not_resolved):
         ctx.rep.rule(fn, ctx)
 
 
@@ -672,11 +672,49 @@ def r7_no_memoised_filesystem_answers(ctx):
     need(t.attr in CACHE_DECORATORS and any(isinstance(c, ast.Call) and getattr(c.func, 'id', None) in FS_PREDICATES for c in ast.walk(fn)), 'C17.R7: positive fixture no longer matches')
 
 
+def r1b_every_candidate_is_tried(ctx):
+    """MUST-PASS: in one search directory a name is given up (check_dpath ends without a path) only after the file candidates were tried too: a
+    directory of that name WITHOUT __init__.py does not shadow `name.py` / `name.so` next to it (the interpreter's FileFinder falls through as well)"""
+    rep = ctx.rep
+    f = ctx.func(CHK)
+    g = ctx.cfg(f)
+    loops = [n for n in g.nodes if n.kind == 'for' and not n.dup]
+    rep.floor('C17.R1b', 'loops over the file candidates in check_dpath', len(loops), 1)
+    found = [n for n in g.nodes if n.kind == 'stmt' and isinstance(n.ast, ast.Return) and n.ast.value is not None and not (isinstance(n.ast.value, ast.Constant) and n.ast.value.value is None)]
+    wit = graph.must_pass([g.entry], lambda x: x is g.exit, through=loops + found, efilter=graph.normal_only)
+    rep.ob('C17.R1b', ctx.loc(f, f.node), 'no path gives up before the file candidates', wit is None,
+           'every path that ends without a module path went through the loop over `name.py`, `name.so`, ...' if wit is None else
+           'check_dpath can end without a result before the file candidates were examined: a plain directory named like the module (no __init__.py) hides the module file next to it',
+           witness=None if wit is None else graph.fmt_path(wit, f.module.relpath), anchor=CHK)
+
+
+def r9_paths_are_not_resolved(ctx):
+    """a dotted name is derived from the path AS GIVEN (made absolute), never from what its symbolic links point to: the interpreter imports
+    `link_pkg.mod` under that name.  The path <-> name functions therefore use abspath, not realpath (realpath is only used to compare two
+    spellings of one directory in the search itself)"""
+    rep = ctx.rep
+    n = 0
+    for q in ('xdoctest.utils.util_import.split_modpath', 'xdoctest.utils.util_import.modpath_to_modname', 'xdoctest.utils.util_import.normalize_modpath',
+              'xdoctest.utils.util_import.import_module_from_path'):
+        f = ctx.func(q)
+        calls = [c for c in walk_scope(f.node) if isinstance(c, ast.Call) and _callee(c) in ('realpath', 'resolve', 'readlink', 'abspath', 'absolute')]
+        for c in calls:
+            n += 1
+            ok = _callee(c) in ('abspath', 'absolute')
+            rep.ob('C17.R9', ctx.loc(f, c), ctx.src(c, 60), ok,
+                   'made absolute without following links' if ok else
+                   'the module path is resolved through symbolic links before it is split / named: for a linked package directory or module file the search-path directory and the '
+                   'dotted name are those of the link target, not of the path that was given (and join(dpath, rel) no longer is that path)', anchor=q)
+    rep.floor('C17.R9', 'path normalisations in the path <-> name functions', n, 2)
+
+
 # ---------------------------------------------------------------------------
 from ..selftest import fire, silent      # noqa: E402
 
 UP = 'xdoctest/utils/util_import.py'
 VARIANTS = [
+    fire('plain-directory-shadows-module-file', 'C17.R1b', (UP, "            if isfile(join(modpath, '__init__.py')):\n                if _isvalid(modpath, dpath):\n                    return modpath\n", "            if not isfile(join(modpath, '__init__.py')):\n                return None\n            if _isvalid(modpath, dpath):\n                return modpath\n")),
+    fire('split-follows-symlinks', 'C17.R9', (UP, "    modpath_ = abspath(expanduser(modpath))\n    if check:", "    modpath_ = realpath(expanduser(modpath))\n    if check:")),
     fire('file-before-package', 'C17.R1', (UP, """        modpath = join(dpath, _fname_we)
         if exists(modpath):
             if isfile(join(modpath, '__init__.py')):
